@@ -32,20 +32,28 @@ Qed.
 Theorem finished_silent_on_timer c e : e_fst e = Finished -> on_timer c e = (e, []).
 Proof. intro H. unfold on_timer. now rewrite H. Qed.
 
-(* ... and re-sends only its final flight, only in reaction to a datagram carrying handshake data
-   from the peer, and only if it was the sender of the last flight of the handshake *)
+(* ... and re-sends only its final flight, only in reaction to a datagram from the peer that carries
+   handshake data the peer has sent before (a retransmission - commit 8305f84), and only if it was
+   the sender of the last flight of the handshake *)
 Theorem finished_resend_rule c e retr now :
   e_fst e = Finished ->
   fst (on_event c e retr now) = e /\
-  snd (on_event c e retr now) = if fl_last_send (e_flight e) then fl_lookup (e_flight e) (c_fl c) else [].
-Proof. intro H. unfold on_event. rewrite H. destruct (fl_last_send (e_flight e)); auto. Qed.
+  snd (on_event c e retr now) =
+    if fl_last_send (e_flight e) && retr then fl_lookup (e_flight e) (c_fl c) else [].
+Proof. intro H. unfold on_event. rewrite H. destruct (fl_last_send (e_flight e) && retr); auto. Qed.
 
-(* one timer expiry: doubling with the 60 s cap (constant without backoff), next deadline one
-   interval later, flight and state unchanged *)
+(* a handshake datagram that repeats nothing (a forged fragment with an unused message number) makes
+   a completed endpoint send nothing at all *)
+Theorem finished_silent_on_new_data c e now :
+  e_fst e = Finished -> on_event c e false now = (e, []).
+Proof. intro H. unfold on_event. rewrite H, Bool.andb_false_r. reflexivity. Qed.
+
+(* one timer expiry: the interval law of handleRetransmitTimeout, next deadline one interval later,
+   flight and state unchanged *)
 Theorem timer_step c e :
   e_fst e = Waiting -> fl_retransmit (e_flight e) = true ->
   let e' := fst (on_timer c e) in
-  e_interval e' = cap60 (if c_backoff c then (2 * e_interval e)%N else e_interval e) /\
+  e_interval e' = next_interval (c_backoff c) (e_interval e) /\
   e_timer e' = (e_timer e + e_interval e')%N /\
   e_flight e' = e_flight e /\ e_fst e' = Waiting /\
   snd (on_timer c e) = fl_lookup (e_flight e) (c_fl c).
@@ -54,18 +62,37 @@ Proof. intros H1 H2. unfold on_timer. rewrite H1, H2. cbn. auto. Qed.
 Fixpoint timeouts (k : nat) (c : cfg) (e : ep) : ep :=
   match k with O => e | S k' => fst (on_timer c (timeouts k' c e)) end.
 
-Lemma cap60_double_min i k : (i <= 60000)%N ->
-  cap60 (2 * N.min (i * 2 ^ N.of_nat k) 60000)%N = N.min (i * 2 ^ N.of_nat (S k)) 60000%N.
+(* the interval never shrinks, never passes the cap when it started below it, and is left alone when
+   it was configured at or above the cap (commits 30fc24e, b6ad085) *)
+Lemma next_interval_ge b i : (i <= next_interval b i)%N.
+Proof.
+  unfold next_interval. destruct b; cbn [andb]; [|lia].
+  destruct (N.ltb_spec i 60000); [|lia]. destruct (N.ltb_spec 30000 i); lia.
+Qed.
+
+Lemma next_interval_above_cap b i : (60000 <= i)%N -> next_interval b i = i.
+Proof.
+  intro H. unfold next_interval. destruct b; cbn [andb]; [|reflexivity].
+  destruct (N.ltb_spec i 60000); [lia|reflexivity].
+Qed.
+
+Lemma next_interval_no_backoff i : next_interval false i = i.
+Proof. reflexivity. Qed.
+
+Lemma next_interval_double_min i k : (i <= 60000)%N ->
+  next_interval true (N.min (i * 2 ^ N.of_nat k) 60000)%N = N.min (i * 2 ^ N.of_nat (S k)) 60000%N.
 Proof.
   intro Hi. replace (N.of_nat (S k)) with (N.succ (N.of_nat k)) by lia. rewrite N.pow_succ_r'.
-  unfold cap60. set (p := (2 ^ N.of_nat k)%N).
+  unfold next_interval. cbn [andb]. set (p := (2 ^ N.of_nat k)%N).
   destruct (N.leb_spec (i * p) 60000) as [Hle | Hgt].
   - rewrite (N.min_l _ _ Hle).
-    destruct (N.ltb_spec 60000 (2 * (i * p))) as [H | H].
-    + rewrite N.min_r by lia. reflexivity.
-    + rewrite N.min_l by lia. lia.
+    destruct (N.ltb_spec (i * p) 60000) as [H | H].
+    + destruct (N.ltb_spec 30000 (i * p)) as [H' | H'].
+      * rewrite N.min_r by lia. reflexivity.
+      * rewrite N.min_l by lia. lia.
+    + assert (i * p = 60000)%N by lia. rewrite N.min_r by lia. lia.
   - rewrite N.min_r by lia.
-    destruct (N.ltb_spec 60000 (2 * 60000)) as [H | H]; [|lia].
+    destruct (N.ltb_spec 60000 60000) as [H | H]; [lia|].
     rewrite N.min_r by lia. reflexivity.
 Qed.
 
@@ -85,8 +112,34 @@ Proof.
     destruct (timer_step c (timeouts k c e) H1 Hr') as (Ha & _ & Hc & Hd & _).
     split; [exact Hd|]. split; [now rewrite Hc|].
     rewrite Ha, H3. destruct (c_backoff c).
-    + now apply cap60_double_min.
-    + unfold cap60. destruct (N.ltb_spec 60000 (e_interval e)); [lia|reflexivity].
+    + now apply next_interval_double_min.
+    + reflexivity.
+Qed.
+
+(* ... and for ANY configured interval, also one above the cap or so large that twice its value does
+   not fit the machine type: the interval never decreases and is constant when backoff is disabled
+   or the configured value is at or above the cap *)
+Theorem interval_law_any c e k :
+  e_fst e = Waiting -> fl_retransmit (e_flight e) = true ->
+  let e' := timeouts k c e in
+  (e_interval e <= e_interval e')%N /\
+  (c_backoff c = false \/ (60000 <= e_interval e)%N -> e_interval e' = e_interval e).
+Proof.
+  intros Hw Hr. cbn zeta.
+  assert (G : forall k, e_fst (timeouts k c e) = Waiting /\ e_flight (timeouts k c e) = e_flight e /\
+                        (e_interval e <= e_interval (timeouts k c e))%N /\
+                        (c_backoff c = false \/ (60000 <= e_interval e)%N ->
+                         e_interval (timeouts k c e) = e_interval e)).
+  { induction k0 as [|k0 IH]; cbn [timeouts]; [repeat split; auto; lia|].
+    destruct IH as (H1 & H2 & H3 & H4).
+    assert (Hr' : fl_retransmit (e_flight (timeouts k0 c e)) = true) by now rewrite H2.
+    destruct (timer_step c (timeouts k0 c e) H1 Hr') as (Ha & _ & Hc & Hd & _).
+    split; [exact Hd|]. split; [now rewrite Hc|]. rewrite Ha. split.
+    - eapply N.le_trans; [exact H3 | apply next_interval_ge].
+    - intros [Hb | Hcap].
+      + rewrite Hb, next_interval_no_backoff. apply H4. now left.
+      + rewrite next_interval_above_cap; [apply H4; now right|]. rewrite (H4 (or_intror Hcap)). exact Hcap. }
+  destruct (G k) as (_ & _ & H3 & H4). split; assumption.
 Qed.
 
 (* ---------- the rx part of the state never touches the timer fields ---------- *)
@@ -222,7 +275,7 @@ Proof.
   unfold on_event. destruct (e_fst e).
   - destruct (parse c _) as [e2 nxt]. destruct (Nat.eqb nxt 0); [cbn; lia|].
     destruct (_ && _); [cbn; lia | apply enter_bound].
-  - destruct (fl_last_send (e_flight e)); cbn [snd]; [apply fl_lookup_bound | cbn; lia].
+  - destruct (fl_last_send (e_flight e) && retr); cbn [snd]; [apply fl_lookup_bound | cbn; lia].
 Qed.
 
 (* C17: whatever arrives - new data, stale flights, anything - one received datagram makes an
